@@ -69,6 +69,9 @@ def modelled_pool(rng):
         (["sort", "-nf", k], f"(VSortN false {cb(k)})"), (["sort", "-nr", k], f"(VSortN true {cb(k)})"),
         (["label", f"id,q,{k}"], f"(VLabel [{cb('id')}; {cb('q')}; {cb(k)}])"), (["label", "w"], f"(VLabel [{cb('w')}])"), (["regularize"], "VRegularize"),
         (["nothing"], "VNothing"),
+        (["fill-empty"], f"(VFillEmpty {cb('N/A')})"), (["fill-empty", "-v", "X"], f"(VFillEmpty {cb('X')})"), (["fill-empty", "-S", "-v", "0"], f"(VFillEmpty {cb('0')})"),
+        (["fill-down", "--all"], "(VFillDownAll false)"), (["fill-down", "--all", "-a"], "(VFillDownAll true)"), (["fill-down", "-a", "--all"], "(VFillDownAll true)"),
+        (["cat", "-n", "-g", k], f"(VCatNG {cb(k)})"), (["tee", "tee_m.dkvp"], "VTee"),
     ]
 
 
@@ -85,8 +88,8 @@ def extra_pool(rng):
         (["step", "-a", "shift,counter", "-f", k], None), (["rename", "-r", "^(.)$,f_\\1"], None), (["reorder", "-f", f"{k},{k2}"], None),
         (["put", f'${k2} = ${k} + 1'], None), (["stats1", "-a", "count,mode", "-f", k, "-g", k2], None), (["count-similar", "-g", f"{k},{k2}"], None),
         (["cat", "-n", "-g", k], None), (["cat", "-n", "-N", "idx"], None), (["case", "-u", "-f", k], None), (["case", "-k", "-u", "-f", f"{k},{k2}"], None), (["case", "-s", "-v", "-f", k], None),
-        (["tee", "tee_out.dkvp"], None), (["tee", "-p", "cat > tee_pipe_out.dkvp"], None), (["fill-empty", "-S"], None), (["fill-empty", "--only-if-blank"], None),
-        (["fill-down", "-a"], None), (["fill-down", "--only-if-blank", "-f", k], None), (["sec2gmt", "-3", k], None), (["sec2gmt", "--millis2gmt", k], None),
+        (["tee", "tee_out.dkvp"], None), (["tee", "-p", "cat > tee_pipe_out.dkvp"], None), (["fill-empty", "-S"], None), (["fill-empty", "-v", "0"], None),
+        (["fill-down", "--all"], None), (["sec2gmt", "-3", k], None), (["sec2gmt", "--millis2gmt", k], None),
         (["grep", "-i", "pan"], None), (["grep", "-v", "-i", "eks"], None), (["sparsify"], None), (["sparsify", "-s", "X"], None), (["utf8-to-latin1"], None),
         (["nothing"], None), (["altkv"], None), (["gap", "-n", "2"], None), (["sec2str", k, "%Y-%m-%d"], None), (["json-stringify", "-f", k], None),
     ]
